@@ -169,7 +169,7 @@ func (s *shadow) fundedAcct() (int, int, bool) {
 func (s *shadow) randomOp() {
 	rng := s.rng
 	sc := s.sc()
-	switch k := rng.Intn(100); {
+	switch k := rng.Intn(105); {
 	case k < 10:
 		if rng.Intn(5) == 0 {
 			s.addThenCmp(fmt.Sprintf("newaddr sc=%s a=%d cf=1", scopes[sc].name, s.acct(sc)))
@@ -254,9 +254,13 @@ func (s *shadow) randomOp() {
 		}
 		s.locked = !s.locked
 		s.tags["lock"] = true
-	case k < 98:
+	case k < 97:
 		s.add("unlock")
 		s.locked = false
+	case k < 98:
+		s.add("restart")
+		s.locked = true
+		s.tags["restart"] = true
 	default:
 		s.passOp()
 	}
@@ -325,9 +329,14 @@ func (s *shadow) probes() {
 		s.add("passprobe")
 		return
 	}
-	if rng.Intn(2) == 0 && !s.locked {
+	switch k := rng.Intn(6); {
+	case k < 2 && !s.locked:
 		s.ops = append(s.ops, "lock")
 		s.locked = true
+	case k == 2:
+		s.ops = append(s.ops, "restart")
+		s.locked = true
+		s.tags["restart"] = true
 	}
 	for i := 1 + rng.Intn(3); i > 0; i-- {
 		id := rng.Intn(nPrivPass)
@@ -473,6 +482,30 @@ func (s *shadow) scenario(k int) {
 		s.locked = false
 		s.createTx(sc, 0, true, "small", false)
 		s.tags["passphrase"] = true
+	case 11: // C05/C08: dry-run import with a CONCURRENT AddressInfo of an uncached address of another account of the
+		// scope while the wallet is locked (after a restart, or after the address was marked used), then Unlock
+		name := scopes[sc].name
+		if rng.Intn(2) == 0 {
+			s.ops = append(s.ops, fmt.Sprintf("newaddr sc=%s a=0", name))
+			if rng.Intn(2) == 0 {
+				s.ops = append(s.ops, fmt.Sprintf("newchange sc=%s a=0", name))
+			}
+			s.ops = append(s.ops, "restart")
+		} else {
+			s.ops = append(s.ops, fmt.Sprintf("fund sc=%s a=0", name), "lock")
+			s.funded[[2]int{sc, 0}] = true
+			s.coins++
+		}
+		s.locked = true
+		key := 1 + rng.Intn(nImportKeys)
+		s.ops = append(s.ops, fmt.Sprintf("importdry sc=%s name=%d key=%d n=%d race=1 ra=100.0.0", name, s.freshName(), key, 1+rng.Intn(3)))
+		s.dryKey[sc][key] = true
+		s.tags["importdry-race"] = true
+		if rng.Intn(3) == 0 {
+			s.ops = append(s.ops, "passprobe")
+		}
+		s.add("unlock")
+		s.locked = false
 	case 5: // failing dry runs of every kind, then a new own account takes the number
 		s.importDry(sc, 1, "1", "1")                       // duplicate name
 		s.importDry(sc, s.freshName(), "bad", "1")         // refused xpub
@@ -486,12 +519,12 @@ func (s *shadow) scenario(k int) {
 	}
 }
 
-const nScenarios = 11
+const nScenarios = 12
 
 func (engine) Generate(rng *rand.Rand, tier string) []core.Case {
-	nRandom, nScen := 150, 132
+	nRandom, nScen := 150, 144
 	if tier == "thorough" {
-		nRandom, nScen = 600, 330
+		nRandom, nScen = 600, 360
 	}
 	var cases []core.Case
 	for i := 0; i < nScen; i++ {
@@ -526,6 +559,9 @@ func (engine) Generate(rng *rand.Rand, tier string) []core.Case {
 		"newacct sc=wpkh", "newacct name=3", "newaddr sc=wpkh a=0 cf=2", "cmp cf=x", "newaddr sc=wpkh a=0 cf=0", "cmp",
 		"unlock pass=4", "unlock pass=x", "chpriv old=0", "chpriv old=0 new=4", "chpub old=3 new=0", "chpub new=1",
 		"chboth pubold=0 pubnew=1 privold=0", "chboth pubold=0 pubnew=3 privold=0 privnew=1", "passprobe", "unlock pass=0",
+		"importdry sc=wpkh name=2 key=1 n=1 race=1", "importdry sc=wpkh name=2 key=1 n=1 race=1 ra=100.0", "importdry sc=wpkh name=2 key=1 n=1 race=2 ra=100.0.0",
+		"importdry sc=wpkh name=2 key=1 n=1 race=1 ra=5.0.0", "importdry sc=wpkh name=2 key=1 n=1 race=1 ra=100.2.0", "import sc=wpkh name=2 key=1 race=1 ra=100.0.0",
+		"importdry sc=wpkh name=2 key=1 n=1 race=1 ra=100.0.24", "importdry sc=wpkh name=2 key=1 n=1 race=0", "restart", "unlock",
 	}})
 	return cases
 }
